@@ -20,7 +20,11 @@ import walkerlib
 def run(c):
     thorough = c.tier == "thorough"
     c.rule = ("generated functions with random nestings (depth <= 8) of if / else-if chains over constant-true, constant-false "
-              "and non-constant conditions, init statements, function literals, loops, switches; every probe(n) call is one "
+              "and non-constant conditions, init statements, function literals, loops, switches -- among them statements that are NOT ifs "
+              "but have a condition / tag / case values over the same constant and non-constant expressions (condition-only and "
+              "three-clause for loops, switches with constant tags and cases, type switches, selects) and statements that follow a "
+              "return / panic / break / continue / goto in the same list (early returns, the labelled tail of `goto fail`, labelled "
+              "break / continue), all of which are as live as the list they stand in; every probe(n) call is one "
               "evaluation (engine verdict with shared state, with fresh state, walker flag, oracle); a case is non-trivial and "
               "distinct by its context signature = the sequence of (constant-ness of the condition, part entered) of the "
               "enclosing ifs / function literals, counted only when some enclosing if is constant; every file runs under the "
@@ -31,7 +35,10 @@ def run(c):
               "kind over whole bodies, custom bytecode filters, always-rejecting filters on the probes themselves -- half of them "
               "ending in Deadcode() / !Deadcode() (every report of those is judged by the flag of its node), among them list patterns "
               "whose Where() reads no pattern variable, each loaded under both tails so that a _dead and a _live list rule meet in every "
-              "block; the reports a run with a panicking callback delivers (before the panic and, should Run carry on, after it) are judged "
+              "block; every history but the first also loads a file of 6-9 groups that define parameterless local helper funcs "
+              "of the same three names with different bodies (Deadcode(), File().Name / PkgPath / Imports, GoVersion(), negations, "
+              "conjunctions, calls of other helpers) on identifier patterns: per identifier node the first group whose Where() formula holds "
+              "on the oracle's flag must report it and nobody else (formula evaluated by the harness); the reports a run with a panicking callback delivers (before the panic and, should Run carry on, after it) are judged "
               "the same way; in half of the cases the "
               "file is also run with Report callbacks that start runs over this file / the previous one (nil, own, pooled states; same "
               "or another goroutine; two levels), each of which must report what it reports alone")
@@ -107,6 +114,9 @@ def run(c):
         if not c.coverage.get("deadcode_runs:reports:disturber+deadcode") or not c.coverage.get("deadcode_runs:nested-runs"):
             c.obligation("harness:deadcode-disturbers-ran", False, "no disturber rule with a Deadcode() tail reported / no re-entrant run happened: %s"
                          % {k: v for k, v in c.coverage.items() if k.startswith("deadcode_runs:")})
+        if c.coverage.get("deadcode_runs:reports:helper-group-decisions", 0) < 1000 or c.coverage.get("disturber_rules:helper-name-clashes", 0) < 8:
+            c.obligation("harness:deadcode-local-helper-groups", False, "the groups with equal-named local helper funcs (different bodies, some reading "
+                         "the dead-code flag) were not judged: %s" % {k: v for k, v in c.coverage.items() if "helper" in k})
         if len(hist) < 6:
             c.obligation("harness:deadcode-load-histories", False, "only %d of the load histories with Deadcode() rules ran: %s" % (len(hist), sorted(hist)))
 
